@@ -292,6 +292,19 @@ FIXED = [
       ("cmp", "eq", ident("x"), ("lit", "int", "1"))), [(ident("x"), ident("outer_x"))]),
     (("lambda", ("path", ident("a"), "items"), "all", "v", ("cmp", "gt", ("path", ident("v"), "a"), ident("a"))),
      [(ident("a"), ("path", ident("rel"), "b")), (("path", ident("a"), "items"), ident("coll"))]),
+    # nested lambdas with different variables: the inner body mentions the outer variable, whose name is a key
+    (("lambda", ident("orders"), "any", "a",
+      ("lambda", ("path", ident("a"), "lines"), "all", "l",
+       ("bool", "and", ("cmp", "gt", ("path", ident("l"), "qty"), ("path", ident("a"), "minimum")),
+        ("cmp", "lt", ("path", ident("l"), "sum"), ident("total"))))),
+     [(ident("a"), ident("author")), (ident("total"), ("path", ident("price"), "amount"))]),
+    (("lambda", ident("orders"), "any", "a",
+      ("bool", "and",
+       ("lambda", ("path", ident("a"), "lines"), "any", "l",
+        ("lambda", ("path", ident("l"), "parts"), "all", "p",
+         ("bool", "or", ("cmp", "eq", ident("p"), ident("a")), ("cmp", "eq", ("path", ident("l"), "n"), ident("l"))))),
+       ("cmp", "eq", ident("a"), ident("l")))),
+     [(ident("a"), ident("author")), (ident("l"), ident("line_col")), (ident("p"), ident("part_col"))]),
 ]
 
 
